@@ -80,6 +80,7 @@ type Contract struct {
 	Atomic       bool
 	Inline       bool   // callers execute the body instead of using the contract (small private helpers)
 	Opts         map[string]string
+	AtRelease    []GhostUpdate // ghost assignments performed right before every monitor release in this function
 	Props        []string
 	File         string
 	Line         int
@@ -92,6 +93,12 @@ type TableSpec struct {
 	Value     *SExpr
 	Guard     *SExpr
 	Text      string
+}
+
+type GhostUpdate struct {
+	Name string
+	E    *SExpr
+	Text string
 }
 
 type CondDecl struct {
@@ -122,6 +129,7 @@ type ContractSet struct {
 	Monitors  []*Monitor
 	TypeInvs  map[string][]*Clause
 	Conds     []CondDecl // cond T.f uses T.mu
+	Blocking  []string   // "T.f": mutexes whose Lock may block for long; no monitor mutex may be held when they are acquired
 	Tables    map[string]*TableSpec // package-level constant lookup tables
 	OpaqueDiv map[string]bool // divisors for which signed division is abstracted (axiomatised)
 	PureVars  map[string]bool // func-typed vars assumed side-effect free
@@ -139,7 +147,7 @@ var clauseKW = map[string]bool{"arith": true, "ghost": true, "pure": true, "opaq
 	"requires": true, "ensures": true, "ensures_panic": true, "modifies": true, "loop": true, "invariant": true,
 	"use": true, "guarded": true, "monitor": true, "typeinv": true, "maypanic": true, "nopanic": true, "trusted": true,
 	"purevar": true, "cover": true, "cases": true, "assumption": true, "property": true, "atomic": true, "inline": true,
-	"havoc": true, "ghostfield": true, "opt": true, "end": true, "opaquediv": true, "reveal": true, "auto": true, "table": true, "exit": true, "cond": true, "assume": true}
+	"havoc": true, "ghostfield": true, "opt": true, "end": true, "opaquediv": true, "reveal": true, "auto": true, "table": true, "exit": true, "cond": true, "assume": true, "atrelease": true, "blocking": true}
 
 type rawLine struct {
 	text string
@@ -572,6 +580,21 @@ func (cs *ContractSet) Load(path string, commentOnly bool) error {
 				return fail(l, "guarded T.f by T.mu")
 			}
 			cs.Guarded = append(cs.Guarded, Guarded{a[0], a[1], b[0], b[1]})
+		case "blocking":
+			cs.Blocking = append(cs.Blocking, strings.Fields(rest)...)
+		case "atrelease":
+			if curFn == nil {
+				return fail(l, "atrelease outside func")
+			}
+			k := strings.Index(rest, "=")
+			if k < 0 {
+				return fail(l, "atrelease ghost = expr")
+			}
+			e, err := ParseSpec(rest[k+1:])
+			if err != nil {
+				return fail(l, "%v", err)
+			}
+			curFn.AtRelease = append(curFn.AtRelease, GhostUpdate{Name: strings.TrimSpace(rest[:k]), E: e, Text: rest})
 		case "cond":
 			// cond T.f uses T.mu
 			f := strings.Fields(rest)
